@@ -29,7 +29,7 @@ RULE = (
     "then alternately absolute and relative requests whose NUMBERS equal those of the previous "
     "request of the other kind, on a series ending at -1) "
     "the complete tree of call histories over {predict, update(size in {1,3} (thorough 1..3), "
-    "update_params in {T,F})} up to depth 3 (mode shared: depth 2, two composites constructed from "
+    "update_params in {T,F}), re-passing two already remembered observations} up to depth 3 (mode shared: depth 2, two composites constructed from "
     "the same member objects driven in lock-step on the series and its shifted copy) after fit is executed on a fresh object, and again "
     "on a twin whose labels are shifted by +7. state = (cutoff, memory, params epoch) fingerprint; "
     "transitions = executed calls. Index kind (RangeIndex/Index, start 0/5) and n in {12,15} "
@@ -185,9 +185,16 @@ def _mk_fh(steps, mode, cutoff):
 def _histories(depth, sizes):
     ups = [("U", s, p) for s in sizes for p in (True, False)]
     alpha = [("P",)] + ups
+    # ("B", 2, False): two observations the forecaster has seen before are passed again (the
+    # batch ends before the end of what it remembers); in histories of up to 3 calls
+    back = [("B", 2, False)]
     for d in range(1, depth + 1):
         for h in itertools.product(alpha, repeat=d):
             if h[-1][0] == "P":
+                yield h
+    for d in range(2, min(depth, 3) + 1):
+        for h in itertools.product(alpha + back, repeat=d):
+            if h[-1][0] == "P" and any(o[0] == "B" for o in h):
                 yield h
 
 
@@ -233,14 +240,18 @@ def _run(spec, y_full, n0, steps, mode, hist, res, tag, shift=0):
         return None
     for op in hist:
         res.transitions += 1
-        if op[0] == "U":
-            batch = y_full.iloc[pos:pos + op[1]]
+        if op[0] in ("U", "B"):
+            if op[0] == "B":
+                batch = y_full.iloc[pos - 3:pos - 1]
+            else:
+                batch = y_full.iloc[pos:pos + op[1]]
             o = call(lambda: f.update(batch.copy(), update_params=op[2]))
             if not o.ok:
                 res.violate("%s:update:raises" % tag, "update raised on in-order data",
                             observed=o.brief())
                 return None
-            pos += op[1]
+            if op[0] == "U":
+                pos += op[1]
             last_label = batch.index[-1]
             if op[2]:
                 epoch = pos
